@@ -1354,129 +1354,138 @@ func ruleR20() *Rule {
 				evStale    = 1 << 2 // ... and differed; readers not yet dropped
 			)
 			validators := map[*ssa.Function]bool{}
-			analyse := func(fn *ssa.Function) (*pathAnalysis, int) {
-				recv := fn.Params[0]
-			pa := newPathAnalysis(fn, func(in ssa.Instruction, ev uint64, _ bool) []uint64 {
-				switch x := in.(type) {
-				case *ssa.Alloc:
-					if isNamed(x.Type(), zapPkgPath, "docVisitState") {
-						return []uint64{ev | evFresh}
-					}
-				case *ssa.Store:
-					if sn, fld, _, ok := fieldOf(x.Addr); ok && sn == "docVisitState" && fld == "dvrs" && dropsReaders(x.Val) {
-						return []uint64{ev &^ evStale}
-					}
-					if sn, fld, _, ok := fieldOf(x.Addr); ok && sn == "docVisitState" {
-						if k, isK := constBool(x.Val); isK && fld != "" {
-							ev &^= 3 << 8
-							if k {
-								return []uint64{ev | 1<<9}
+			// helpers that are handed a state and the segment and leave the state validated for that segment
+			// (`dvs.bind(s, fields)`): function -> index of the segment parameter
+			binders := map[*ssa.Function]int{}
+			var analyse func(fn *ssa.Function, segIdx int) (*pathAnalysis, int)
+			analyse = func(fn *ssa.Function, segIdx int) (*pathAnalysis, int) {
+				recv := fn.Params[segIdx]
+				pa := newPathAnalysis(fn, func(in ssa.Instruction, ev uint64, _ bool) []uint64 {
+					switch x := in.(type) {
+					case *ssa.Alloc:
+						if isNamed(x.Type(), zapPkgPath, "docVisitState") {
+							return []uint64{ev | evFresh}
+						}
+					case *ssa.Store:
+						if sn, fld, _, ok := fieldOf(x.Addr); ok && sn == "docVisitState" && fld == "dvrs" && dropsReaders(x.Val) {
+							return []uint64{ev &^ evStale}
+						}
+						if sn, fld, _, ok := fieldOf(x.Addr); ok && sn == "docVisitState" {
+							if k, isK := constBool(x.Val); isK && fld != "" {
+								ev &^= 3 << 8
+								if k {
+									return []uint64{ev | 1<<9}
+								}
+								return []uint64{ev | 1<<8}
 							}
-							return []uint64{ev | 1<<8}
+						}
+					case ssa.CallInstruction:
+						// a helper of the segment that hands out a validated state (`dvs := s.docVisitStateFor(fields, dvsIn)`)
+						if f := staticCallee(x); f != nil && validators[f] && len(x.Common().Args) > 0 && root(x.Common().Args[0]) == ssa.Value(recv) {
+							return []uint64{(ev | evFresh) &^ evStale}
+						}
+						if f := staticCallee(x); f != nil {
+							if si, ok := binders[f]; ok && si < len(x.Common().Args) && root(x.Common().Args[si]) == ssa.Value(recv) {
+								return []uint64{(ev | evCompared) &^ evStale}
+							}
+						}
+						if b, ok := x.Common().Value.(*ssa.Builtin); ok && b.Name() == "clear" && len(x.Common().Args) == 1 && isLoadOfField(x.Common().Args[0], "docVisitState", "dvrs") {
+							return []uint64{ev &^ evStale}
+						}
+						// a helper on the state that replaces the readers before it looks at them (`dvs.attach(s, fields)`)
+						if f := staticCallee(x); f != nil && c.p.InZap(f) && len(f.Blocks) > 0 && len(f.Params) > 0 && len(x.Common().Args) > 0 &&
+							isNamed(f.Params[0].Type(), zapPkgPath, "docVisitState") && helperDropsReaders(f) {
+							return []uint64{ev &^ evStale}
 						}
 					}
-				case ssa.CallInstruction:
-					// a helper of the segment that hands out a validated state (`dvs := s.docVisitStateFor(fields, dvsIn)`)
-					if f := staticCallee(x); f != nil && validators[f] && len(x.Common().Args) > 0 && root(x.Common().Args[0]) == ssa.Value(recv) {
-						return []uint64{(ev | evFresh) &^ evStale}
-					}
-					if b, ok := x.Common().Value.(*ssa.Builtin); ok && b.Name() == "clear" && len(x.Common().Args) == 1 && isLoadOfField(x.Common().Args[0], "docVisitState", "dvrs") {
-						return []uint64{ev &^ evStale}
-					}
-					// a helper on the state that replaces the readers before it looks at them (`dvs.attach(s, fields)`)
-					if f := staticCallee(x); f != nil && c.p.InZap(f) && len(f.Blocks) > 0 && len(f.Params) > 0 && len(x.Common().Args) > 0 &&
-						isNamed(f.Params[0].Type(), zapPkgPath, "docVisitState") && helperDropsReaders(f) {
-						return []uint64{ev &^ evStale}
-					}
+					return nil
+				})
+				nCmp := 0
+				delLoops := deleteAllLoops(fn)
+				for h := range nilAllLoops(fn) {
+					delLoops[h] = true
 				}
-				return nil
-			})
-			nCmp := 0
-			delLoops := deleteAllLoops(fn)
-			for h := range nilAllLoops(fn) {
-				delLoops[h] = true
-			}
-			// a bool field of the state that the function sets and tests (`dvs.resolved = false` ... `if
-			// !dvs.resolved`): the last constant stored is what a later test sees
-			const (
-				evFlagFalse = 1 << 8
-				evFlagTrue  = 1 << 9
-			)
-			flagField := ""
-			eachInstr(fn, func(_ *ssa.BasicBlock, in ssa.Instruction) {
-				if st, ok := in.(*ssa.Store); ok {
-					if sn, fld, _, ok := fieldOf(st.Addr); ok && sn == "docVisitState" {
-						if _, isK := constBool(st.Val); isK {
-							flagField = fld
+				// a bool field of the state that the function sets and tests (`dvs.resolved = false` ... `if
+				// !dvs.resolved`): the last constant stored is what a later test sees
+				const (
+					evFlagFalse = 1 << 8
+					evFlagTrue  = 1 << 9
+				)
+				flagField := ""
+				eachInstr(fn, func(_ *ssa.BasicBlock, in ssa.Instruction) {
+					if st, ok := in.(*ssa.Store); ok {
+						if sn, fld, _, ok := fieldOf(st.Addr); ok && sn == "docVisitState" {
+							if _, isK := constBool(st.Val); isK {
+								flagField = fld
+							}
 						}
 					}
-				}
-			})
-			flagTest := func(cond ssa.Value) (whenTrue bool, ok bool) {
-				neg := false
-				for {
-					if u, isU := cond.(*ssa.UnOp); isU && u.Op == token.NOT {
-						cond, neg = u.X, !neg
-						continue
+				})
+				flagTest := func(cond ssa.Value) (whenTrue bool, ok bool) {
+					neg := false
+					for {
+						if u, isU := cond.(*ssa.UnOp); isU && u.Op == token.NOT {
+							cond, neg = u.X, !neg
+							continue
+						}
+						break
 					}
-					break
+					if flagField == "" || !isLoadOfField(cond, "docVisitState", flagField) {
+						return false, false
+					}
+					return !neg, true
 				}
-				if flagField == "" || !isLoadOfField(cond, "docVisitState", flagField) {
-					return false, false
-				}
-				return !neg, true
-			}
-			pa.edgeTr = func(pred *ssa.BasicBlock, succIdx int, ev uint64) uint64 {
-				iff, ok := pred.Instrs[len(pred.Instrs)-1].(*ssa.If)
-				if !ok {
+				pa.edgeTr = func(pred *ssa.BasicBlock, succIdx int, ev uint64) uint64 {
+					iff, ok := pred.Instrs[len(pred.Instrs)-1].(*ssa.If)
+					if !ok {
+						return ev
+					}
+					if delLoops[pred] && succIdx == 1 {
+						// the range over the readers is exhausted and every iteration deleted its key: the map is empty
+						ev &^= evStale
+					}
+					bo, ok := iff.Cond.(*ssa.BinOp)
+					if !ok || (bo.Op != token.NEQ && bo.Op != token.EQL) {
+						return ev
+					}
+					var other ssa.Value
+					if isLoadOfField(bo.X, "docVisitState", "segment") {
+						other = bo.Y
+					} else if isLoadOfField(bo.Y, "docVisitState", "segment") {
+						other = bo.X
+					} else {
+						return ev
+					}
+					if other != ssa.Value(recv) {
+						return ev
+					}
+					nCmp++
+					differs := (bo.Op == token.NEQ) == (succIdx == 0)
+					ev |= evCompared
+					if differs {
+						ev |= evStale
+					}
 					return ev
 				}
-				if delLoops[pred] && succIdx == 1 {
-					// the range over the readers is exhausted and every iteration deleted its key: the map is empty
-					ev &^= evStale
-				}
-				bo, ok := iff.Cond.(*ssa.BinOp)
-				if !ok || (bo.Op != token.NEQ && bo.Op != token.EQL) {
-					return ev
-				}
-				var other ssa.Value
-				if isLoadOfField(bo.X, "docVisitState", "segment") {
-					other = bo.Y
-				} else if isLoadOfField(bo.Y, "docVisitState", "segment") {
-					other = bo.X
-				} else {
-					return ev
-				}
-				if other != ssa.Value(recv) {
-					return ev
-				}
-				nCmp++
-				differs := (bo.Op == token.NEQ) == (succIdx == 0)
-				ev |= evCompared
-				if differs {
-					ev |= evStale
-				}
-				return ev
-			}
-			pa.edge = func(pred, succ *ssa.BasicBlock, ev uint64) bool {
-				iff, ok := pred.Instrs[len(pred.Instrs)-1].(*ssa.If)
-				if !ok || len(pred.Succs) != 2 || pred.Succs[0] == pred.Succs[1] {
+				pa.edge = func(pred, succ *ssa.BasicBlock, ev uint64) bool {
+					iff, ok := pred.Instrs[len(pred.Instrs)-1].(*ssa.If)
+					if !ok || len(pred.Succs) != 2 || pred.Succs[0] == pred.Succs[1] {
+						return true
+					}
+					whenTrue, ok := flagTest(iff.Cond)
+					if !ok {
+						return true
+					}
+					// the edge claims the flag is...
+					claimsTrue := (succ == pred.Succs[0]) == whenTrue
+					if ev&evFlagFalse != 0 && claimsTrue {
+						return false
+					}
+					if ev&evFlagTrue != 0 && !claimsTrue {
+						return false
+					}
 					return true
 				}
-				whenTrue, ok := flagTest(iff.Cond)
-				if !ok {
-					return true
-				}
-				// the edge claims the flag is...
-				claimsTrue := (succ == pred.Succs[0]) == whenTrue
-				if ev&evFlagFalse != 0 && claimsTrue {
-					return false
-				}
-				if ev&evFlagTrue != 0 && !claimsTrue {
-					return false
-				}
-				return true
-			}
 				pa.run(0)
 				return pa, nCmp
 			}
@@ -1489,7 +1498,7 @@ func ruleR20() *Rule {
 				if res.Len() != 1 || !isNamedPtr(res.At(0).Type(), "docVisitState") {
 					continue
 				}
-				vpa, vcmp := analyse(f)
+				vpa, vcmp := analyse(f, 0)
 				okv := vcmp > 0
 				for _, ret := range returnsOf(f) {
 					for _, ev := range vpa.statesBefore(ret) {
@@ -1502,11 +1511,45 @@ func ruleR20() *Rule {
 					validators[f] = true
 				}
 			}
-			pa, nCmp := analyse(fn)
+			for _, f := range c.p.ZapFuncs {
+				if f == fn || f.Parent() != nil || len(f.Blocks) == 0 || validators[f] {
+					continue
+				}
+				si, di := -1, -1
+				for i, prm := range f.Params {
+					if isNamedPtr(prm.Type(), "SegmentBase") {
+						si = i
+					}
+					if isNamedPtr(prm.Type(), "docVisitState") {
+						di = i
+					}
+				}
+				if si < 0 || di < 0 {
+					continue
+				}
+				bpa, bcmp := analyse(f, si)
+				okb := bcmp > 0
+				for _, ret := range returnsOf(f) {
+					for _, ev := range bpa.statesBefore(ret) {
+						if ev&evCompared == 0 || ev&evStale != 0 {
+							okb = false
+						}
+					}
+				}
+				if okb {
+					binders[f] = si
+				}
+			}
+			pa, nCmp := analyse(fn, 0)
 			callsValidator := false
 			for _, cs := range callSites(fn) {
 				if f := staticCallee(cs); f != nil && validators[f] {
 					callsValidator = true
+				}
+				if f := staticCallee(cs); f != nil {
+					if _, ok := binders[f]; ok {
+						callsValidator = true
+					}
 				}
 			}
 			if callsValidator {
@@ -1539,6 +1582,9 @@ func ruleR20() *Rule {
 			// helpers that are handed the state and read its readers: every caller hands them a validated one
 			for _, u := range c.p.ZapFuncs {
 				if u == fn || validators[u] || u.Parent() != nil || len(u.Blocks) == 0 {
+					continue
+				}
+				if _, ok := binders[u]; ok {
 					continue
 				}
 				pi := -1
@@ -1575,6 +1621,19 @@ func ruleR20() *Rule {
 					}
 					if al, ok := arg.(*ssa.Alloc); ok && isNamed(al.Type(), zapPkgPath, "docVisitState") {
 						okArg = true
+					}
+					if !okArg && cs.Parent() == fn {
+						// handed over by VisitDocValues itself at a point where its own state is validated
+						okArg = true
+						sts := pa.statesBefore(cs)
+						for _, ev := range sts {
+							if (ev&evFresh == 0 && ev&evCompared == 0) || ev&evStale != 0 {
+								okArg = false
+							}
+						}
+						if len(sts) == 0 {
+							okArg = false
+						}
 					}
 					if !okArg {
 						okAll = false
